@@ -53,6 +53,7 @@ class Recur:
         """the term shs_minmax[recur_depth] the thresholds are fields of"""
         for d, loc in self.e.branches:
             if d[0] == 'op' and d[1] == 'le' and d[3] == self.shs and d[4][0] == 'fld': return d[4][1]
+            if d[0] == 'op' and d[1] == 'ge' and d[4] == self.shs and d[3][0] == 'fld': return d[3][1]
         return None
 
 
@@ -62,7 +63,11 @@ def discard_only_beyond_max(ctx, crate, rec, clause):
         st.facts = st.facts | {('emitted',)}
         return None
     def assume(t):
-        if t[0] == 'op' and t[1] == 'le' and t[3][0] in ('sym',) and t[4][0] == 'fld' and t[4][2] == rec.fmax: return True
+        from rules.common import is_cmp
+        is_max = lambda x: x[0] == 'fld' and x[2] == rec.fmax
+        is_shs = lambda x: x[0] == 'sym'
+        if is_cmp(t, 'le', is_shs, is_max): return True
+        if is_cmp(t, 'gt', is_shs, is_max): return False
         return None
     e = Engine(crate, opaque={PUSH, L + "center", "nested::get_or_create"}, models={PUSH: emitted, rec.path: emitted}, assume=assume)
     r = e.run(rec.path)
@@ -103,7 +108,8 @@ def minmax_provenance(ctx, crate, clause_outer, clause_inner):
     ok_alts = all((o[0] == 'c') or tshs.get(o) == ('op', 'sub', 'f64', R, D) for o in alts) and any(tshs.get(o) == ('op', 'sub', 'f64', R, D) for o in alts)
     ctx.extra_sentinel = [(_cv(o)) for o in consts]
     # the 0 alternative is selected by `radius < distance`
-    guard = [d for d, loc in e.branches if d[0] == 'op' and d[1] in ('lt', 'le') and d[3] == R and d[4] == D]
+    from rules.common import is_cmp
+    guard = [d for d, loc in e.branches if is_cmp(d, 'lt', R, D) or is_cmp(d, 'le', R, D)]
     ctx.report(clause_inner, MINMAX + ":min=f(radius-distance)|0", ok_alts and (len(alts) == 1 or bool(guard)),
                "MinMax.min ∈ %s, 0 selected by `%s`" % ([show(tshs.get(o, o)) for o in alts], [show(g) for g in guard]), at=b.span, kind="N")
     # same monotone f for both; the array maps every distance with the same radius
